@@ -52,9 +52,16 @@ def _source_path(name):
 def run_child(source, cfg, ops, want_text=()):
     job = {"repo": core.repo_root(), "verif": core.VERIF_DIR, "source": source, "layout_seed": cfg.get("layout"),
            "gc": cfg.get("gc"), "prewarm": cfg.get("prewarm"), "xref": cfg.get("xref", True), "ops": ops,
-           "want_text": [list(t) for t in want_text], "ambient": cfg.get("ambient"), "prior_source": cfg.get("prior_source")}
+           "want_text": [list(t) for t in want_text], "ambient": cfg.get("ambient"), "prior_source": cfg.get("prior_source"),
+           "recursion_limit": cfg.get("recursion_limit")}
     env = dict(os.environ, PYTHONHASHSEED=str(cfg["hashseed"]), PYTHONDONTWRITEBYTECODE="1")
     env.pop("PYTHONPATH", None)
+    # the locale / text-encoding environment of the simulated process is fixed when its interpreter starts
+    amb = cfg.get("ambient") or {}
+    for k in ("LANG", "LC_ALL", "LC_CTYPE", "PYTHONUTF8", "PYTHONCOERCECLOCALE", "PYTHONIOENCODING", "TZ"):
+        env.pop(k, None)
+        if amb.get(k) not in (None, ""):
+            env[k] = str(amb[k])
     try:
         p = subprocess.run([sys.executable, "-X", "faulthandler", CHILD], input=json.dumps(job), capture_output=True,
                            text=True, env=env, timeout=600)
@@ -101,7 +108,10 @@ def draw_group(seed):
         allm = sorted(r.sample(allm, 120))
         allc = sorted(r.sample(allc, min(len(allc), 12)))
     canon = [["ms", ci, mi] for _, ci, mi in allm] + [["cs", ci] for _, ci, _ in allc]
-    cfgs = [{"hashseed": 0, "layout": 0, "gc": None, "prewarm": False, "xref": True}]
+    # one recursion limit for ALL processes of the group (the property does not promise equal output under different limits,
+    # but under one limit deep methods must fail, or succeed, the same way whatever happened earlier in the process)
+    rec_limit = r.choice([None, None, None, 400, 220])
+    cfgs = [{"hashseed": 0, "layout": 0, "gc": None, "prewarm": False, "xref": True, "recursion_limit": rec_limit}]
     hist = [canon]
     hr = core.rng(seed, "history")
     lr = core.rng(seed, "layout")
@@ -111,7 +121,9 @@ def draw_group(seed):
                      "ambient": {"time_base": 1.5e9 + hr.randrange(10 ** 8), "TZ": hr.choice(["UTC", "Asia/Tokyo", "America/New_York"]),
                                  "LANG": hr.choice(["C", "en_US.UTF-8", "tr_TR.UTF-8"]), "LC_ALL": hr.choice(["", "C", "C.UTF-8"]),
                                  "cwd": "/dev/shm/verif-c22-cwd/%d" % hr.randrange(4),
-                                 "clock_step": hr.choice([1e-6, 0.0137, 0.9, 7.0, 3600.0])},
+                                 "clock_step": hr.choice([1e-6, 0.0137, 0.9, 7.0, 3600.0]),
+                                 "PYTHONUTF8": hr.choice(["", "1", "0"]), "PYTHONCOERCECLOCALE": hr.choice(["", "0"])},
+                     "recursion_limit": rec_limit,
                      "prior_source": ({"kind": "file", "path": _source_path(hr.choice(SMALL))} if hr.random() < 0.3 else None)})
         ops = [list(o) for o in canon]
         hr.shuffle(ops)
